@@ -141,6 +141,8 @@ class MindsDBParser(Parser):
     @_('CREATE SKILL if_not_exists_or_empty identifier USING kw_parameter_list')
     def create_skill(self, p):
         params = p.kw_parameter_list
+        if 'type' not in params:
+            raise ParsingException("CREATE SKILL: 'type' parameter is required")
 
         return CreateSkill(
             name=p.identifier,
